@@ -367,7 +367,11 @@ def tables(chk):
     fields = ['coherent_scattering_length_re', 'coherent_scattering_length_im', 'incoherent_scattering_length_re', 'incoherent_scattering_length_im',
               'coherent_scattering_cross_section', 'incoherent_scattering_cross_section', 'total_scattering_cross_section', 'absorption_cross_section']
     for r in sp_rows:
-        p = atoms.ScatteringParams.for_isotope(r[0])
+        try:
+            p = atoms.ScatteringParams.for_isotope(r[0])
+        except Exception as e:  # noqa: BLE001
+            bad.append((r[0], f'a tabulated nuclide is refused: {type(e).__name__}: {e}'[:120]))
+            continue
         for k, f in enumerate(fields):
             if not same(getattr(p, f), r[1 + 2 * k], r[2 + 2 * k], 'fm' if k < 4 else 'barn'):
                 bad.append((r[0], f))
@@ -376,7 +380,11 @@ def tables(chk):
     # unit): the table, not a shared object, is what a lookup returns
     bad = []
     for r in sp_rows:
-        p = atoms.ScatteringParams.for_isotope(r[0])
+        try:
+            p = atoms.ScatteringParams.for_isotope(r[0])
+        except Exception as e:  # noqa: BLE001
+            bad.append((r[0], f'a tabulated nuclide is refused: {type(e).__name__}: {e}'[:120]))
+            continue
         for f in fields:
             v = getattr(p, f)
             if v is None:
@@ -388,7 +396,11 @@ def tables(chk):
                 v.unit = 'm'
             except Exception as e:  # noqa: BLE001 -- read-only answers are fine
                 pass
-        p2 = atoms.ScatteringParams.for_isotope(r[0])
+        try:
+            p2 = atoms.ScatteringParams.for_isotope(r[0])
+        except Exception as e:  # noqa: BLE001
+            bad.append((r[0], f'a tabulated nuclide is refused the second time: {type(e).__name__}: {e}'[:120]))
+            continue
         for k, f in enumerate(fields):
             if not same(getattr(p2, f), r[1 + 2 * k], r[2 + 2 * k], 'fm' if k < 4 else 'barn'):
                 bad.append((r[0], f))
